@@ -1265,6 +1265,13 @@ impl Machine {
             ValProbe(r, p, k, i) => match rg[*r].pointer(&to_ptr(p)) {
                 Some(x) => {
                     let js = |x: &Value| to_json(&dump(x));
+                    // indexes far beyond any length (and beyond 32 bits) find nothing, through
+                    // every read-only lookup
+                    for big in [(1usize << 32) + *i, 1usize << 32, (1usize << 33) + *i, (u32::MAX as usize) + 1 + *i, usize::MAX - *i, (1usize << 63) | *i, (1usize << 16) + *i, (1usize << 24) + *i] {
+                        if x.get(big).is_some() || x.pointer(&[big]).is_some() || !x[big].is_null() || x.as_array().map(|a| a.get(big).is_some()).unwrap_or(false) {
+                            return Out::Text(format!("index {} (far out of range) finds a value", big));
+                        }
+                    }
                     let dbg = format!("{:?}", x);
                     let shown = format!("{}", x);
                     if dbg.is_empty() || Some(shown.clone()) != sonic_rs::to_string(x).ok() {
@@ -1435,7 +1442,7 @@ pub fn rand_op(r: &mut Rng, model: &[M]) -> Op {
             r.below(n as u64 + 1) as usize
         }
     };
-    match r.below(61) {
+    match r.below(64) {
         52 => {
             let p = op(r);
             let k = key(r, &p);
@@ -1593,7 +1600,7 @@ pub fn rand_op(r: &mut Rng, model: &[M]) -> Op {
         48 => ObjClear(reg, op(r)),
         49 => ValueInsert(reg, (*r.pick(KEYS)).to_string(), rand_lit(r)),
         50 => ValueAppend(reg, rand_lit(r)),
-        57 | 58 => {
+        61 | 62 | 63 => {
             let p = ap(r);
             let n = alen(&p);
             let a = (r.below(3) as u8, idx(r, n));
